@@ -1,7 +1,7 @@
 #!/bin/bash
 # harmless_verify.sh <prop> <H1|H2> : confirm a behaviour-preserving refactoring delivered in /tmp/s/<prop>_out:
 # patch applies on /repo HEAD, the equivalence program writes IDENTICAL observations before/after, the pinned suite passes.
-prop=$1; v=$2; out=/tmp/s/waveH/${prop}_out; wt=/tmp/v/h_${prop}_${v}_$$
+prop=$1; v=$2; case $v in H1|H2) out=/tmp/s/waveH/${prop}_out;; *) out=/tmp/s/${prop}_out;; esac; wt=/tmp/v/h_${prop}_${v}_$$
 rm -rf $wt; mkdir -p /tmp/v; git -C /repo worktree add -q --detach $wt HEAD || exit 2
 export PYTHONPATH=$wt/perception_eval
 cd $wt
